@@ -11,12 +11,6 @@ namespace ALV.C10
 open Finset
 variable {K : Type} [Field K]
 
-theorem bilT_symm (r : List K) (n : ℕ) (u v : ℕ → K) : bilT r n u v = bilT r n v u := by
-  unfold bilT
-  rw [Finset.sum_comm]
-  refine Finset.sum_congr rfl fun i _ => Finset.sum_congr rfl fun j _ => ?_
-  rw [adiff_comm]; ring
-
 theorem bilT_add_add (r : List K) (n : ℕ) (a d : ℕ → K) :
     bilT r n (fun i => a i + d i) (fun i => a i + d i) =
       bilT r n a a + 2 * bilT r n d a + bilT r n d d := by
